@@ -37,12 +37,10 @@ pub fn make_module() -> KMap {
 
         match map_instance_and_args(ctx, expected_error)? {
             (KValue::Map(m), [KValue::Map(other)]) => {
-                m.data_mut().extend(
-                    other
-                        .data()
-                        .iter()
-                        .map(|(key, value)| (key.clone(), value.clone())),
-                );
+                // Copy the other map's entries before borrowing the target mutably,
+                // see list.extend
+                let other_data = other.data().clone();
+                m.data_mut().extend(other_data.iter().map(|(k, v)| (k.clone(), v.clone())));
                 Ok(KValue::Map(m.clone()))
             }
             (KValue::Map(m), [iterable]) if iterable.is_iterable() => {
@@ -345,10 +343,13 @@ fn do_map_update(
     f: KValue,
     vm: &mut KotoVm,
 ) -> Result<KValue> {
-    if !map.data().contains_key(&key) {
-        map.data_mut().insert(key.clone(), default);
-    }
-    let value = map.get(&key).unwrap();
+    // A single borrow for the lookup and the insertion of the default value,
+    // the map might be shared with other threads
+    let value = map
+        .data_mut()
+        .entry(key.clone())
+        .or_insert(default)
+        .clone();
     match vm.call_function(f, value) {
         Ok(new_value) => {
             map.data_mut().insert(key, new_value.clone());
